@@ -487,6 +487,10 @@ def run(ctx, only_scripts=None):
                     violations.append(dict(key=t, replay=rp, what=json.dumps(dev[line - 1])[:300]))
         stats["disk_checks"] = len(dev)
         stats["disk_checks_in_reserved_band"] = sum(1 for e in dev if e["mb"] > e["avail_hi"] and e["mb"] < e["free"])
+    if prop in ("C03", "C17") and only_scripts is None:
+        lv, lstats = long_files(ctx, tier, prop)
+        violations += [v for v in lv if v["key"] not in seen]
+        stats["recordings_longer_than_16_bits"] = lstats
     if prop == "C03" and only_scripts is None:
         cv, cstats = config_lengths(ctx, tier)
         violations += [v for v in cv if v["key"] not in seen]
@@ -604,6 +608,39 @@ def config_lengths(ctx, tier):
                 rp = vlib.save_replay(ctx, tg.replace(":", "_"), dict(family="proc", property="C03", clause=tg, config=cfgs[e["i"]], observed=e))
                 out.append(dict(key=tg, replay=rp, what=json.dumps(e)[:300]))
     return out, dict(configs=len(cfgs), min_equals_max=sum(1 for (a, b, p) in combos if a == b))
+
+
+def long_files(ctx, tier, prop):
+    """C03 / C17 for lengths beyond 16 bits: max-secs*fps > 65535 frames per file, through the real MotionProcessor with
+    counting sinks (TestVerifLongFiles; judged by ProcMonTrace.tla event longfiles)."""
+    import subprocess
+    scripts = [dict(fps=9, min_secs=1, max_secs=7300, frames=2 * 65701 + 50, motion=(prop == "C03")),
+               dict(fps=60, min_secs=0, max_secs=1100, frames=66001 + 66001 + 9, motion=(prop == "C03")),
+               dict(fps=9, min_secs=2, max_secs=20, frames=2000, motion=(prop == "C03"))]
+    if tier == "thorough":
+        scripts += [dict(fps=1, min_secs=10, max_secs=70000, frames=140100, motion=(prop == "C03")),
+                    dict(fps=3, min_secs=1, max_secs=21845, frames=65536 + 10, motion=True)]
+    binm = ctx.go_test_build("./motion", "motion.test")
+    inp, outp = ctx.path("run", "longfiles.json"), ctx.path("run", "longfiles.ndjson")
+    json.dump(dict(scripts=scripts), open(inp, "w"))
+    r = subprocess.run([binm, "-test.run", "^TestVerifLongFiles$"], env=dict(os.environ, VERIF_SCRIPT=inp, VERIF_OUT=outp),
+                       capture_output=True, text=True, timeout=900)
+    if r.returncode != 0 or not os.path.exists(outp):
+        raise vlib.Infra("long-files driver failed: " + (r.stdout + r.stderr)[-2500:])
+    events = vlib.read_ndjson(outp)
+    if len(events) != len(scripts):
+        raise vlib.Infra("long-files driver: %d results for %d scripts" % (len(events), len(scripts)))
+    viol, nev = judge(ctx, outp, "longfilesmon")
+    out, seen = [], set()
+    for (line, tags) in viol:
+        for tg in tags:
+            if tg.startswith(prop + ":") and tg not in seen:
+                seen.add(tg)
+                e = events[line - 1]
+                rp = vlib.save_replay(ctx, tg.replace(":", "_") + "_long", dict(family="proc", property=prop, clause=tg, script=scripts[e["script"]], observed=e))
+                out.append(dict(key=tg + "[long-files]", replay=rp, what=json.dumps(e)[:300]))
+    return out, dict(scripts=len(scripts), frames=sum(s["frames"] for s in scripts),
+                     files=sum(len(e["clens"]) + len(e["mlens"]) for e in events))
 
 
 def mount_small_fs(ctx, name, size="2m"):
